@@ -281,11 +281,21 @@ call_function(ostream &out, int indent_level, bool convert_result,
  */
 void FunctionRemap::
 write_orig_prototype(ostream &out, int indent_level, bool local, int num_default_args) const {
+  std::ostringstream strm;
   if (local) {
-    _cppfunc->output(out, indent_level, nullptr, false, num_default_args);
+    _cppfunc->output(strm, indent_level, nullptr, false, num_default_args);
   } else {
-    _cppfunc->output(out, indent_level, &parser, false, num_default_args);
+    _cppfunc->output(strm, indent_level, &parser, false, num_default_args);
   }
+
+  // The prototype is written within a comment.  Make sure that nothing in it,
+  // such as a string literal in a default argument, terminates that comment.
+  std::string prototype = strm.str();
+  size_t p = 0;
+  while ((p = prototype.find("*/", p)) != std::string::npos) {
+    prototype.replace(p, 2, "* /");
+  }
+  out << prototype;
 }
 
 /**
